@@ -253,7 +253,15 @@ class Term(ItemSequenceT[T]):
             pass
         it = _iter_normalized(self, self.normalize_elem)
         items = self._reduce_items(it, keep_item_order=False)
-        if items == self._items:  # self is already normalized
+        # self is already normalized only if it holds the very same elements;
+        # comparing by equality would take an element equal to, but not
+        # identical with, its base element (a scale-1 alias) for that one
+        if len(items) == len(self._items) and all(
+                exp == s_exp and (
+                    elem is s_elem or (isinstance(elem, Rational) and
+                                       isinstance(s_elem, Rational) and
+                                       elem == s_elem))
+                for (elem, exp), (s_elem, s_exp) in zip(items, self._items)):
             self._normalized = self
             return self
         term = self.__class__(items, reduce_items=False)
